@@ -1,10 +1,12 @@
 #!/usr/bin/env python3
-"""seed_meta.py <name> <property> <needs> <demo file> <demo dest> <checks comma-separated>  — writes /verif/seeded/<name>/meta.json"""
+"""seed_meta.py <name> <property> <needs> <demo file> <demo dest> <checks comma-separated> [history note]  — writes /verif/seeded/<name>/meta.json"""
 import json,sys
 name,prop,needs,demo,dest,checks=sys.argv[1:7]
+history=sys.argv[7] if len(sys.argv)>7 else None
 m={"name":name,"breaks_property":prop,"needs_to_manifest":needs,"demonstration":demo,"demonstration_goes_to":dest,
    "origin":"fresh sub-agent given only the property text and a scratch worktree",
    "confirmed":"tools/confirm_seed.sh: suite passes with the change; demonstration fails with it and passes without it (fresh scratch worktree)",
    "checks_to_run":checks.split(",")}
+if history: m["history"]=history
 json.dump(m,open('/verif/seeded/%s/meta.json'%name,'w'),indent=1)
 print("meta written",name)
